@@ -496,3 +496,6 @@ def check(run):
     r6_read_path_does_not_mutate(run)
     from ..common_rules import memo_rule
     memo_rule(run, "R7", {"cache", "ident", "population"}, "cache and identifier lookups")
+    from ..common_rules import shared_state_rule
+    shared_state_rule(run, "R8", {"cache", "population", "mcache", "mdbcache"},
+                      "cache operations")
